@@ -7,7 +7,9 @@ reply   : err=1 | err=0 nv=<n> walk=<views> look=<views> spec_walk=<views> spec_
   mt            : per view, the regular files with the modification time of the node's entry (generator: (cid mod 26)*1000 + size)
   walk/look     : the model of image.FromV1Image (literal lock-step loader, final-view pruning)
   spec_walk/... : the OCI visibility rule (for the last view restricted to the needed files)
-  wf            : hypothesis H of C04_view_partial per view;  cls: which clauses of H fail
+  wf            : hypothesis H of C04_view_partial per view (and: reading the rejected entries as whiteouts changes nothing in
+                  that view);  cls: which clauses fail (rejected-shadow: a rejected entry has something older at or beneath its
+                  path; rejected-parents: only the directories it implies differ)
   dec           : the one-view-at-a-time formulation `viewOf` agrees with the literal loader on every path
   fw            : the forward fold `ociApply` agrees with the visibility rule on every view where H holds
   sz            : no file node of any view has size ≥ MaxFileBytes (C10_layer_bytes on the model)
@@ -19,6 +21,7 @@ import Scalibr.Base.Wire
 import Scalibr.Model.OverlayImage
 import Scalibr.Spec.Overlay
 import Scalibr.Spec.OverlayRequired
+import Scalibr.Spec.OverlayRejected
 open Scalibr Scalibr.Wire Scalibr.Overlay Scalibr.GoPath
 
 def hexS (s : String) : String := if s = "" then "-" else hexOfStr s
@@ -119,12 +122,17 @@ def handle (line : String) : String :=
             | some (.file bs) => bytesContent bs
             | _ => "readerr"
           let eff := chain.map effective
+          -- the specification reads an entry the loader rejects (size limit, link out of the root) as a whiteout of its path
+          let effS := chain.map specEffective
           let specs : List Tree := (List.range n).map fun j =>
-            let s := specView eff j
+            let s := specView effS j
             if j + 1 = n then specRequired U reqF depth s else s
+          -- … which changes nothing where the rejected entries have nothing to hide
+          let rejNoop := fun (j : Nat) => U.all fun q => obsOf (specView eff j q) == obsOf (specView effS j q)
           let bigD := fun (j : Nat) => (chain.take (j+1)).any bigDup
-          let wfs := (List.range n).map fun j => H eff j && !bigD j
-          let cls := (List.range n).map fun j => joinWith "," (failingOf eff j ++ (if bigD j then ["ill-dup-big"] else []))
+          let wfs := (List.range n).map fun j => H eff j && !bigD j && rejNoop j
+          let cls := (List.range n).map fun j => joinWith "," (failingOf eff j ++ (if bigD j then ["ill-dup-big"] else [])
+            ++ (if rejNoop j then [] else [if rejectedShadowsAt chain j then "rejected-shadow" else "rejected-parents"]))
           let dec := (List.range n).all fun j => U.all fun q => (chains.getD j emptyTree) q == viewOf eff j q
           let fw := (List.range n).all fun j => !(H eff j) || U.all fun q => obsOf (specView eff j q) == obsOf (ociView eff j q)
           let sz := views.all fun t => sizesBelow limit U t
